@@ -297,7 +297,131 @@ let kind4 expected runs =
     let shown = List.filteri (fun i _ -> i < 4) l in
     Printf.sprintf "PROP %d of %d request(s): %s" (List.length l) (List.length runs) (String.concat " | " shown)
 
-let f _id vs =
+(* ---------------------------------------------------------------- extraction cross-check
+   With ORACLE_DUMP=<file>, for every case of kind 1, 2, 3 the values the EXTRACTED model computes
+   (independently of what the implementation returned) are appended as one line of integers;
+   bin/coqreplay_c21.py recomputes the same numbers inside Coq with vm_compute.  The folds below
+   are total: a blocked thread simply does not move. *)
+let dump_chan = match Sys.getenv_opt "ORACLE_DUMP" with
+  | Some p when p <> "" -> Some (open_out_gen [Open_append; Open_creat] 0o644 p)
+  | _ -> None
+let zz i = if i < 0 then -2 * i - 1 else 2 * i
+let bi b = if b then 1 else 0
+let bits_val l = List.fold_right (fun b acc -> bi b + 2 * acc) l 0
+let pool_nums (p : pool) =
+  [zz (int_of_z p.sp_inflight); zz (int_of_z p.sp_total); bi p.sp_zero; bi p.sp_ready; bi p.sp_quiet;
+   List.length p.sp_pool; bits_val p.sp_pool; bi p.sp_panic]
+
+let dump1 ops =
+  let p = ref new_pool in
+  List.concat_map (fun opv ->
+    match as_list opv with
+    | op :: arg :: _ ->
+      let res = (match as_int op with
+        | 0 -> p := fst (m_register !p); 0
+        | 1 -> p := m_inc !p; 0
+        | 2 -> p := m_dec !p; 0
+        | 3 -> let p' = m_set (nat_of_int (as_int arg)) !p in
+               let pan = p'.sp_panic in p := clear_panic p'; if pan then 3 else 0
+        | 4 -> (match m_wait !p with WReturned -> 1 | _ -> 0)
+        | _ -> 0) in
+      pool_nums !p @ [res]
+    | _ -> []) ops
+
+let group_nums (g : group) =
+  let n = List.length g.g_nodes in
+  let idxs = List.init n (fun i -> nat_of_int i) in
+  pool_nums g.g_pool
+  @ [int_of_nat g.g_size; bits_val (List.map (fun m -> m.mn_leader) g.g_nodes);
+     bits_val (List.map (fun m -> m.mn_wake) g.g_nodes); bits_val (List.map (fun m -> m.mn_awake) g.g_nodes)]
+  @ List.map (fun i -> match g_next i g with Some j -> int_of_nat j + 1 | None -> 0) idxs
+  @ List.concat_map (fun i -> let p = g_string i g in List.length p :: List.map int_of_nat p) idxs
+
+let dump2 ops =
+  let g = ref new_group in
+  List.concat_map (fun opv ->
+    match as_list opv with
+    | op :: arg :: _ ->
+      let a = nat_of_int (as_int arg) in
+      let res = (match as_int op with
+        | 0 -> g := fst (g_join !g); 0
+        | 1 -> let p1 = m_set (g_node !g a).mn_rep !g.g_pool in
+               if p1.sp_panic then (g := { !g with g_pool = clear_panic p1 }; 3)
+               else (g := g_signal_ready a !g; 0)
+        | 2 -> g := g_inc !g; 0
+        | 3 -> g := g_dec !g; 0
+        | 4 -> g := g_wake a !g; 0
+        | 5 -> bi (g_sleep_returns a !g)
+        | 6 -> (match g_wait !g with WReturned -> 1 | _ -> 0)
+        | _ -> 0) in
+      group_nums !g @ [res]
+    | _ -> []) ops
+
+let mcode = function
+  | MWaitStd -> 0 | MSetLock -> 1 | MSetBody -> 2 | MSetClose -> 3 | MSetUnlock -> 4 | MDec1 -> 5 | MDec2 -> 6
+  | MDec3 -> 7 | MWaitReady -> 8 | MLoadTotal -> 9 | MWaitQ -> 10 | MSleep -> 11 | MWake1 -> 13 | MWake2 -> 14
+  | MWaitRec -> 15 | MDone -> 16 | MCleanup k -> 20 + int_of_nat k
+let pcode = function
+  | PRecv -> 0 | PInc1 (m, r) -> 1 + 16 * int_of_nat (msize m) + 16 * List.fold_left (fun a x -> a + int_of_nat (msize x)) 0 r
+  | PInc2 (m, r) -> 2 + 16 * int_of_nat (msize m) + 16 * List.fold_left (fun a x -> a + int_of_nat (msize x)) 0 r
+  | PSend (m, r) -> 3 + 16 * int_of_nat (msize m) + 16 * List.fold_left (fun a x -> a + int_of_nat (msize x)) 0 r
+  | PDrop1 r -> 4 + 16 * List.fold_left (fun a x -> a + int_of_nat (msize x)) 0 r
+  | PDrop2 r -> 5 + 16 * List.fold_left (fun a x -> a + int_of_nat (msize x)) 0 r
+  | PDrop3 r -> 6 + 16 * List.fold_left (fun a x -> a + int_of_nat (msize x)) 0 r
+  | PFin1 -> 7 | PFin2 -> 8 | PFin3 -> 9 | PEnd -> 10
+
+let mpc_t st i = match List.nth_opt st.st_main i with Some pc -> pc | None -> MDone
+let ppc_t st k = match List.nth_opt st.st_proc k with Some p -> p.p_pc | None -> PEnd
+let rec run_while_t fuel inside st t =
+  if fuel = 0 then st else if inside st then (match step st t with Some s' -> run_while_t (fuel - 1) inside s' t | None -> st) else st
+let step_t st t = match step st t with Some s' -> s' | None -> st
+
+let act_t st kind ix =
+  let tm = TM (nat_of_int ix) and tp = TP (nat_of_int ix) in
+  match kind with
+  | 1 -> run_while_t 20 (fun s -> match mpc_t s ix with
+      | MWaitStd | MSetLock | MSetBody | MSetClose | MSetUnlock | MDec1 | MDec2 | MDec3 -> true | _ -> false) st tm
+  | 2 -> run_while_t 10 (fun s -> match mpc_t s ix with MWaitReady | MLoadTotal | MWaitQ -> true | _ -> false) st tm
+  | 3 | 4 | 6 -> step_t st tm
+  | 5 -> run_while_t 5 (fun s -> match mpc_t s ix with MWake1 | MWake2 -> true | _ -> false) st tm
+  | 7 -> step_t st tp
+  | 8 -> let s3 = step_t (step_t (step_t st tp) tp) tp in
+    run_while_t 5 (fun s -> match ppc_t s ix with PDrop1 _ | PDrop2 _ | PDrop3 _ -> true | _ -> false) s3 tp
+  | 9 -> run_while_t 5 (fun s -> match ppc_t s ix with PFin1 | PFin2 | PFin3 -> true | _ -> false) st tp
+  | 10 -> step_t st TC
+  | _ -> st
+
+let state_nums st =
+  let wsum f l = snd (List.fold_left (fun (i, a) x -> (i + 1, a + i * f x)) (1, 0) l) in
+  pool_nums st.st_pool
+  @ [bits_val st.st_wake; bits_val st.st_awake; List.length st.st_flight; int_of_nat st.st_lost;
+     int_of_nat st.st_processed; bi st.st_cancel; wsum mcode st.st_main; wsum (fun p -> pcode p.p_pc) st.st_proc;
+     wsum int_of_nat st.st_closed; List.length st.st_log]
+
+let dump3 n np std acts =
+  let stdl = List.map (fun v -> match as_list v with
+      | [o; ks] -> (nat_of_int (as_int o), List.map msg_of (as_list ks))
+      | _ -> failwith "std") std in
+  let st = ref (init (nat_of_int n) (nat_of_int np) stdl) in
+  let per_action = List.concat_map (fun av ->
+    match as_list av with
+    | kind :: _ :: ix :: _ -> st := act_t !st (as_int kind) (as_int ix); state_nums !st
+    | _ -> []) acts in
+  per_action @ [bi (final !st)]
+
+let dump_case id nums =
+  match dump_chan with
+  | Some ch -> output_string ch (id ^ " " ^ String.concat " " (List.map string_of_int nums) ^ "\n"); flush ch
+  | None -> ()
+
+let f id vs =
+  (if dump_chan <> None then
+     try (match vs with
+       | [I "1"; ops] -> dump_case id (dump1 (as_list ops))
+       | [I "2"; ops] -> dump_case id (dump2 (as_list ops))
+       | I "3" :: n :: np :: std :: acts :: _ -> dump_case id (dump3 (as_int n) (as_int np) (as_list std) (as_list acts))
+       | _ -> ())
+     with _ -> ());
   try
     match vs with
     | [I "1"; ops] -> kind1 (as_list ops)
